@@ -144,6 +144,9 @@ Verdict judgeImpl(const Case& c, bool gp, bool strictRect = false) {
     ST.count(degenerateInput ? "rect_input_degenerate" : "rect_input_nondegenerate");
     (void)strictRect;
   }
+#ifdef C04_STRICT
+  degenerateInput = false;   // development switch: judge degenerate input as strictly as general-position input
+#endif
   bool useD = m <= (int64_t(1) << 50) && c.I("useD", 1);
   int maxLevel = 0;
   for (ClipType ct : CTS)
